@@ -142,7 +142,7 @@ func (st *Stats) Record(x *Execution) {
 		}
 		if _, ok := st.Races[k]; !ok {
 			st.Races[k] = r
-			add("race", fmt.Sprintf("unsynchronised conflicting accesses to %s: %s / %s", r.Field, r.First, r.Second))
+			add("race", fmt.Sprintf("unsynchronised conflicting accesses to %s: %s / %s", k, r.First, r.Second))
 		}
 	}
 	for _, v := range x.InvViol {
